@@ -206,11 +206,14 @@ func NewPropFindResponse(path string, propfind *PropFind, props map[xml.Name]Pro
 			}
 		}
 	} else if prop := propfind.Prop; prop != nil {
+		// A property named several times is reported once
+		seen := make(map[xml.Name]bool)
 		for _, raw := range prop.Raw {
 			xmlName, ok := raw.XMLName()
-			if !ok {
+			if !ok || seen[xmlName] {
 				continue
 			}
+			seen[xmlName] = true
 
 			emptyVal := NewRawXMLElement(xmlName, nil, nil)
 
